@@ -2,7 +2,7 @@
    Only ExtrOcamlBasic is used (bool, option, unit, list, prod, sumbool, sumor mapped to OCaml's own
    types; andb/orb inlined).  No Extract Constant / Extract Inductive directive of our own:
    nat, positive, N, Z, ascii stay the extracted inductives. *)
-Require Import Strum.Model.Bytes Strum.Model.Defs Strum.Model.Heck Strum.Model.Meta Strum.Model.Names
+Require Import Strum.Model.Bytes Strum.Model.Defs Strum.Model.Heck Strum.Model.HeckU Strum.Model.Meta Strum.Model.Names
                Strum.Model.FromStr Strum.Model.Display Strum.Model.Iter Strum.Model.IterProg Strum.Model.Table Strum.Model.Misc
                Strum.Model.Repr Strum.Model.Reject Strum.Spec.FromStrSpec Strum.Model.Paths.
 From Coq Require Extraction ExtrOcamlBasic.
@@ -11,6 +11,7 @@ Extraction "../extract/model.ml"
   Z.add Z.mul Z.sub Z.div_eucl Z.opp Z.leb Z.ltb Z.eqb Z.of_nat Z.to_nat N.of_nat N.to_nat Z.pow
   str_eqb eq_ic_str lower_str upper_str char_count
   convert_case style_of_string snakify heck_words
+  uconvert_case usnakify ucd_of_table table_closed table_disjoint sigma_free
   vprops_of tprops_of preferred_name serializations
   gen_from_str run_from_str run_try_from path_ok ident_ok
   gen_display run_display fmt_pad capture capture_idents gen_as_ref run_as_ref gen_into_static gen_to_string run_match
